@@ -344,7 +344,7 @@ func retryCases(r *rand.Rand) []retryCase {
 	plan := gen.Plan(r, o)
 	hrr := gen.ServerHelloRecord(r, true, plan.OuterBase.SID)
 	var out []retryCase
-	classOf := map[string]string{"G": "", "P": "illegal", "V": "illegal", "N": "missing", "I": "illegal", "S": "illegal", "E": "illegal", "B": "decrypt", "M": "illegal", "A": "illegal", "R": "illegal", "C": "illegal", "K": "", "Q": "illegal", "Z": "illegal", "NV": "missing", "X": ""}
+	classOf := map[string]string{"G": "", "P": "illegal", "V": "illegal", "N": "missing", "I": "illegal", "S": "illegal", "E": "illegal", "ES": "illegal", "B": "decrypt", "M": "illegal", "A": "illegal", "R": "illegal", "C": "illegal", "K": "", "Q": "illegal", "Z": "illegal", "NV": "missing", "X": ""}
 	// R: the same ALPN protocols in another order; C: the inner server name in another letter case;
 	// K: a well-formed second hello whose extension list legally differs from the first (RFC 8446 4.1.2:
 	// a cookie is added, early_data goes, padding changes, key_share is replaced)
@@ -352,7 +352,9 @@ func retryCases(r *rand.Rand) []retryCase {
 	// NV: no ECH extension and no TLS 1.3 either (a client falling back to a legacy hello): still the
 	// missing extension is what is wrong with it; X: a well-formed second hello whose OUTER extensions the
 	// inner one refers to have changed (new key_share): the second outer hello is the one that counts
-	for _, kind := range []string{"G", "P", "V", "N", "I", "S", "E", "B", "M", "A", "R", "C", "K", "Q", "Z", "NV", "X"} {
+	// ES: the second hello repeats the FIRST hello's enc (a stack that copies the extension and refreshes the
+	// payload), everything else authentic, the AAD covering that enc
+	for _, kind := range []string{"G", "P", "V", "N", "I", "S", "E", "B", "M", "A", "R", "C", "K", "Q", "Z", "NV", "X", "ES"} {
 		s1 := gen.Seal(plan.OuterBase, 1, key, suite, plan.Enc.Body(), nil, 0x0301)
 		e2 := *plan.Enc
 		e2.Random = gen.RandBytes(r, 32)
@@ -433,6 +435,9 @@ func retryCases(r *rand.Rand) []retryCase {
 		}
 		s2 := gen.Seal(&base2, 1, key, suite, e2.Body(), s1.Sender, 0x0303)
 		second := s2.Rec
+		if kind == "ES" {
+			second = gen.SealRepeatingEnc(&base2, 1, key, suite, e2.Body(), s1.Sender, s1.Enc, 0x0303).Rec
+		}
 		edit := func(f func(e *gen.ECHOuter)) []byte {
 			h, _, _ := gen.ParseRecord(s2.Rec)
 			e, i := gen.FindECH(h)
